@@ -784,8 +784,8 @@ def run_case(aiocoap, ops):
 
 def run(env, rep):
     aiocoap = env.import_repo()
-    logging.getLogger("resource-directory").setLevel(logging.CRITICAL)
-    logging.getLogger("asyncio").setLevel(logging.CRITICAL)
+    __import__("common").quiet(logging.getLogger("resource-directory"))
+    __import__("common").quiet(logging.getLogger("asyncio"))
     warnings.filterwarnings("ignore", message=".* is deprecated, use .*")   # aiocoap.util.DeprecationWarning
     import aiocoap.cli.rd as rd
     grace = rd.CommonRD.Registration.grace_period
@@ -838,8 +838,8 @@ def run(env, rep):
 
 def replay(env, case):
     aiocoap = env.import_repo()
-    logging.getLogger("resource-directory").setLevel(logging.CRITICAL)
-    logging.getLogger("asyncio").setLevel(logging.CRITICAL)
+    __import__("common").quiet(logging.getLogger("resource-directory"))
+    __import__("common").quiet(logging.getLogger("asyncio"))
     warnings.filterwarnings("ignore", message=".* is deprecated, use .*")   # aiocoap.util.DeprecationWarning
     _, verdict, _, _, _ = run_case(aiocoap, case["ops"])
     return verdict
